@@ -382,6 +382,11 @@ func verifPeerHTTPAddrs(n *NSQD, lp *lookupPeer) []string {
 // a daemon that does not converge ends as a failed "converged:" assertion, not as a hang.
 // Each churn operation runs to completion before nsqd's goroutines move (one canonical
 // schedule, verifrt.Rest); c16_delrace.go explores the interleavings of a topic deletion.
+// The churned objects are durable ones or "#ephemeral" ones (verifLoopRun.names): "exactly its
+// current topics and channels" includes the ephemeral ones - consumers find them through
+// nsqlookupd like any other -, whether they are created/deleted explicitly or come and go with
+// a consumer (SUB; last consumer leaves => nsqd deletes the ephemeral channel, last channel
+// gone => nsqd deletes the ephemeral topic). All of it goes through the REAL NSQD.Notify.
 // ---------------------------------------------------------------------------------------------
 
 var verifTickC chan time.Time
@@ -398,6 +403,14 @@ type verifLoopRun struct {
 	t0     time.Time // native: when the loop (and its ticker) started
 	ticks  int
 	exited bool
+	// the objects the churn operations work on (default t0 / c0). Either name may carry the
+	// "#ephemeral" suffix: nsqlookupd has to list ephemeral topics and channels like any other
+	// (consumers discover them there). withConsumer: the channel is created the way a SUB does it
+	// (GetChannel + AddClient) and goes away the way a consumer's channel does - its last consumer
+	// leaves (RemoveClient); nsqd then deletes an ephemeral channel by itself, and an ephemeral
+	// topic by itself once its last channel is gone.
+	topic, channel string
+	withConsumer   bool
 	// topicDeletes: topic deletions so far. Vacuity witnesses that are replayed natively steer
 	// clear of them: with real goroutines a topic deletion on a dead connection takes the order
 	// that VerifC16_TopicDeleteRacesReconnect reports (c16_delrace.go), which the one canonical
@@ -423,7 +436,7 @@ func verifStartLoopWith(w *verifWorld, addrs []string) *verifLoopRun {
 	o := *n.getOpts()
 	o.NSQLookupdTCPAddresses = addrs
 	n.swapOpts(&o)
-	r := &verifLoopRun{w: w, n: n}
+	r := &verifLoopRun{w: w, n: n, topic: "t0", channel: "c0"}
 	if verifrt.Symbolic() {
 		verifTickC = make(chan time.Time)
 		verifrt.Stub("time.NewTicker", verifNewTickerStub)
@@ -532,22 +545,82 @@ func (r *verifLoopRun) note(ld *verifLookupd, where string) {
 	println(line)
 }
 
-// churn operations on topic t0 / channel c0 (the real entry points the TCP/HTTP handlers use)
+// verifC16Consumer: a consumer as far as Channel.AddClient / RemoveClient / Delete care.
+type verifC16Consumer struct{}
+
+func (verifC16Consumer) UnPause()                 {}
+func (verifC16Consumer) Pause()                   {}
+func (verifC16Consumer) Close() error             { return nil }
+func (verifC16Consumer) TimedOutMessage()         {}
+func (verifC16Consumer) Stats(string) ClientStats { return nil }
+func (verifC16Consumer) Empty()                   {}
+
+// names: which kind of topic / channel the churn operations work on.
+//
+//	0  t0            c0            durable topic and channel, deleted explicitly (/channel/delete)
+//	1  t0            c0#ephemeral  a consumer's ephemeral channel: gone when the consumer leaves
+//	2  t0#ephemeral  c0#ephemeral  ... on an ephemeral topic: the topic goes with its last channel
+//	3  t0#ephemeral  c0            ephemeral topic, durable channel deleted explicitly
+//	4  t0            c0#ephemeral  ephemeral channel deleted explicitly
+func (r *verifLoopRun) names(variant int) {
+	switch variant {
+	case 1:
+		r.channel, r.withConsumer = "c0#ephemeral", true
+	case 2:
+		r.topic, r.channel, r.withConsumer = "t0#ephemeral", "c0#ephemeral", true
+	case 3:
+		r.topic = "t0#ephemeral"
+	case 4:
+		r.channel = "c0#ephemeral"
+	}
+}
+
+// topicObj / channelObj: the churned topic / channel if nsqd currently has it.
+func (r *verifLoopRun) topicObj() *Topic {
+	t, err := r.n.GetExistingTopic(r.topic)
+	if err != nil {
+		return nil
+	}
+	return t
+}
+
+func (r *verifLoopRun) channelObj() *Channel {
+	t := r.topicObj()
+	if t == nil {
+		return nil
+	}
+	c, err := t.GetExistingChannel(r.channel)
+	if err != nil {
+		return nil
+	}
+	return c
+}
+
+// churn operations on topic r.topic / channel r.channel (the real entry points the TCP/HTTP
+// handlers use)
 func (r *verifLoopRun) op(k int) {
 	n := r.n
 	switch k {
 	case 0:
-		n.GetTopic("t0")
+		n.GetTopic(r.topic)
 	case 1:
-		t := n.GetTopic("t0")
+		t := n.GetTopic(r.topic)
 		r.rest() // (a new topic's pump gets to run before the channel is added)
-		t.GetChannel("c0")
+		c := t.GetChannel(r.channel)
+		if r.withConsumer {
+			c.AddClient(1, verifC16Consumer{}) // what SUB does
+		}
 	case 2:
-		if t, err := n.GetExistingTopic("t0"); err == nil {
-			t.DeleteExistingChannel("c0")
+		if r.withConsumer {
+			// the channel's only consumer disconnects
+			if c := r.channelObj(); c != nil {
+				c.RemoveClient(1)
+			}
+		} else if t := r.topicObj(); t != nil {
+			t.DeleteExistingChannel(r.channel)
 		}
 	case 3:
-		if n.DeleteExistingTopic("t0") == nil {
+		if n.DeleteExistingTopic(r.topic) == nil {
 			r.topicDeletes++
 		}
 	case 4:
@@ -583,32 +656,66 @@ func (r *verifLoopRun) finish() {
 	verifrt.Assert(r.exited, "lookup-loop-answers-exit")
 }
 
-// Churn without lookupd faults: every sequence of `steps` operations.
+// Churn without lookupd faults: every sequence of `steps` operations, on durable and on
+// "#ephemeral" topics and channels (see names): the statement's "exactly its current topics and
+// channels" makes no exception for ephemeral ones - they are announced and withdrawn like any
+// other, whether an operator deletes them or nsqd drops them itself when the last consumer
+// (channel) / the last channel (topic) is gone.
 func VerifC16_LookupLoopChurn() { verifrt.Atomic(verifC16LoopChurn) }
 
 func verifC16LoopChurn() {
 	r := verifStartLoop(1, 0)
+	ld := r.w.lds[0]
+	variant := verifrt.Choice("names", verifrt.Bound("nameVariants", 3, 5))
+	r.names(variant)
 	r.checkRest("start")
 	steps := verifrt.Bound("churnSteps", 3, 5)
+	if stepsEph := verifrt.Bound("churnStepsEphemeral", 3, 4); variant != 0 {
+		steps = stepsEph
+	}
 	deleted, created := false, false
+	ephChanListed, ephChanWithdrawn, ephTopicListed, ephTopicWithdrawn := false, false, false, false
 	for i := 0; i < steps; i++ {
 		k := verifrt.Choice("op", 5)
-		_, errBefore := r.n.GetExistingTopic("t0")
+		hadTopic, hadChannel := r.topicObj() != nil, r.channelObj() != nil
 		r.w.beginStep()
 		r.op(k)
 		r.rest()
 		r.w.endStep()
 		r.checkRest("churn")
-		if k == 3 && errBefore == nil {
+		if k == 3 && hadTopic {
 			deleted = true
 		}
 		if k == 1 && deleted {
 			created = true
 		}
+		// (bookkeeping for the witnesses below; the listing itself is read, not inferred)
+		r.w.lock()
+		cur := ld.current()
+		topicListed := cur != nil && cur.topics[r.topic]
+		chanListed := cur != nil && cur.chans[r.topic+" "+r.channel]
+		r.w.unlock()
+		hasTopic, hasChannel := r.topicObj() != nil, r.channelObj() != nil
+		if variant == 1 || variant == 2 || variant == 4 {
+			ephChanListed = ephChanListed || (!hadChannel && hasChannel && chanListed)
+			ephChanWithdrawn = ephChanWithdrawn || (hadChannel && !hasChannel && !chanListed && k == 2)
+		}
+		if variant == 2 || variant == 3 {
+			ephTopicListed = ephTopicListed || (!hadTopic && hasTopic && topicListed)
+			ephTopicWithdrawn = ephTopicWithdrawn || (hadTopic && !hasTopic && !topicListed && k == 2)
+		}
 	}
-	verifrt.Reach("a-create-then-delete-channel", len(r.n.topicMap) == 1 && r.ticks == 0 && !deleted)
+	// (the witness replayed natively in the quick tier is the first by name: an ephemeral channel
+	// created for a consumer and dropped when it leaves, against the loopback lookupd)
+	verifrt.Reach("a-0-ephemeral-channel-listed-then-withdrawn-when-its-consumer-leaves", variant == 1 && ephChanListed && ephChanWithdrawn && r.ticks == 0 && !deleted)
+	verifrt.Reach("a-create-then-delete-channel", variant == 0 && len(r.n.topicMap) == 1 && r.ticks == 0 && !deleted)
+	verifrt.Reach("ephemeral-topic-listed-then-withdrawn-with-its-last-channel", variant == 2 && ephTopicListed && ephTopicWithdrawn && ephChanWithdrawn)
 	verifrt.Reach("topic-deleted-and-recreated", created)
 	verifrt.Reach("heartbeat-on-healthy-connection", r.ticks > 0)
+	if verifrt.Bound("nameVariants", 3, 5) > 3 {
+		verifrt.Reach("ephemeral-topic-with-durable-channel", variant == 3 && ephTopicListed && ephTopicWithdrawn)
+		verifrt.Reach("ephemeral-channel-deleted-explicitly", variant == 4 && ephChanListed && ephChanWithdrawn)
+	}
 	r.finish()
 }
 
@@ -622,11 +729,29 @@ func verifC16LoopFaults() {
 		faults, steps = 2, 1
 	}
 	r := verifStartLoop(1, faults)
+	// durable objects, or a consumer's ephemeral channel on a durable topic (names 0 / 1; thorough:
+	// also 4). Not the ephemeral TOPIC that nsqd deletes by itself after its last channel: that
+	// deletion runs in a goroutine of nsqd's own, and with a fault in flight it is the scenario of
+	// VerifC16_TopicDeleteRacesReconnect's recorded finding (the re-registration on reconnect reads
+	// topicMap while the exiting topic is still in it), which these harnesses steer clear of.
+	variant := verifrt.Choice("names", verifrt.Bound("nameVariants", 2, 3))
+	if variant == 2 {
+		variant = 4
+	}
+	r.names(variant)
 	r.checkRest("start")
 	for i := 0; i < steps; i++ {
 		k := verifrt.Choice("op", 5)
 		if i == 0 {
 			verifrt.Assume(k != 2 && k != 3) // nothing to delete yet
+			// (the ephemeral variant differs from the durable one only once the channel exists:
+			// its runs start with the consumer's SUB)
+			verifrt.Assume(variant == 0 || k == 1)
+		}
+		if i == 1 {
+			// (... and go on with that consumer leaving: nsqd then deletes the channel in a goroutine
+			// of its own; every other continuation is the durable variant's)
+			verifrt.Assume(variant == 0 || k == 2)
 		}
 		r.w.beginStep()
 		r.op(k)
@@ -641,6 +766,7 @@ func verifC16LoopFaults() {
 	verifrt.Reach("fault-then-converged", hits > 0 && r.topicDeletes == 0 && r.ticks <= 1)
 	r.finish()
 	verifrt.Reach("connection-reset-then-converged", r.w.rsts > 0 && r.topicDeletes == 0 && r.ticks <= 3)
+	verifrt.Reach("ephemeral-channel-come-and-gone-with-a-fault-then-converged", variant == 1 && hits > 0 && r.topicObj() != nil && r.channelObj() == nil)
 	verifrt.Observe("faults", hits)
 }
 
@@ -703,12 +829,17 @@ func VerifC16_LookupLoopTwoPeers() { verifrt.Atomic(verifC16LoopTwoPeers) }
 
 func verifC16LoopTwoPeers() {
 	r := verifStartLoop(2, verifrt.Bound("faults", 1, 1))
+	variant := verifrt.Choice("names", 2) // durable objects / a consumer's ephemeral channel
+	r.names(variant)
 	r.checkRest("start")
 	steps := verifrt.Bound("churnSteps", 1, 2)
 	for i := 0; i < steps; i++ {
 		k := verifrt.Choice("op", 5)
 		if i == 0 {
 			verifrt.Assume(k != 2 && k != 3) // nothing to delete yet
+			// (the ephemeral variant differs from the durable one only once the channel exists:
+			// its runs start with the consumer's SUB)
+			verifrt.Assume(variant == 0 || k == 1)
 		}
 		r.w.beginStep()
 		r.op(k)
@@ -729,6 +860,7 @@ func verifC16LoopTwoPeers() {
 	}
 	verifrt.Assert(untouched >= 1, "one-fault-touches-one-lookupd")
 	verifrt.Reach("a-both-healthy", r.w.hits == 0 && untouched == 2 && r.ticks == 0)
+	verifrt.Reach("ephemeral-channel-listed-by-both", variant == 1 && untouched == 2 && r.channelObj() != nil)
 	verifrt.Reach("one-failing-one-healthy", r.w.hits > 0 && untouched == 1 && r.topicDeletes == 0 && r.ticks <= 1)
 	r.finish()
 }
@@ -753,6 +885,15 @@ func verifC16LoopReconfigure() {
 	mid := verifrt.Choice("mid", 4)
 	after := verifrt.Choice("after", 4)
 	r := verifStartLoopWith(w, pick(before))
+	// durable objects, or an ephemeral topic with a consumer's ephemeral channel (names 0 / 2): a
+	// lookupd configured at run time learns about the ephemeral objects through the full
+	// registration on connect and must see them go when the consumer leaves
+	variant := verifrt.Choice("names", 2) * 2
+	r.names(variant)
+	// (for the ephemeral variant the configured set starts as {lookupd0} and then becomes empty or
+	// both - the scenarios in which the variant matters: a lookupd added at run time, or configured
+	// again after a spell without any; the set after that is any subset again)
+	verifrt.Assume(variant == 0 || (before == 1 && (mid == 0 || mid == 3)))
 	r.checkRest("start")
 	w.beginStep()
 	r.op(1)
@@ -807,6 +948,7 @@ func verifC16LoopReconfigure() {
 	check(after)
 
 	verifrt.Reach("a-lookupd-added", before == 1 && mid == 3 && after == 3)
+	verifrt.Reach("ephemeral-objects-on-a-lookupd-added-at-run-time", variant == 2 && before == 1 && mid == 3 && after == 3 && r.channelObj() != nil)
 	verifrt.Reach("lookupd-removed", before == 3 && mid == 2)
 	verifrt.Reach("lookupd-replaced", mid == 1 && after == 2)
 	verifrt.Reach("lookupd-removed-then-configured-again", before == 1 && mid == 0 && after == 1)
